@@ -39,7 +39,7 @@ static inline wv_u128 spec_pack(spec_st s)
   return x;
 }
 static inline unsigned char spec_xtime(unsigned char x) { return (unsigned char)((x << 1) ^ ((x & 0x80) ? 0x1b : 0)); }
-static inline unsigned char spec_gmul(unsigned char a, unsigned char b)
+static inline unsigned char spec_gmul_T(unsigned char a, unsigned char b)
 {
   unsigned char p = 0;
   for (int i = 0; i < 8; ++i)
@@ -51,6 +51,13 @@ static inline unsigned char spec_gmul(unsigned char a, unsigned char b)
   }
   return p;
 }
+/* opacity layer 0 (only for the MixColumns inverse lemma): GF(2^8) multiplication as an uninterpreted function */
+#if defined(WV_CBMC) && defined(WV_OPAQUE_GMUL)
+unsigned char __CPROVER_uninterpreted_gmul(unsigned char a, unsigned char b);
+#define spec_gmul __CPROVER_uninterpreted_gmul
+#else
+#define spec_gmul spec_gmul_T
+#endif
 static inline unsigned char spec_ginv(unsigned char x)
 {
   /* x^254 = x^(2+4+8+16+32+64+128) */
